@@ -114,8 +114,18 @@ func nameIndex(n string) int {
 
 // GenLine draws a log line: JSON object / key=value text the regexp stages parse / free
 // hostile text / (rarely) empty or broken JSON.
+// richJSON: every key of the json paths present, with different values under different keys
+// (two extractions into one label then disagree).
+func richJSON(rt *rapid.T) string {
+	vals := rapid.SliceOfNDistinct(rapid.SampledFrom([]string{"x", "y", "prod", "dev", "info", "api", "1", "42", "3.5", "it's", "a.b"}), 4, 4, rapid.ID[string]).Draw(rt, "rjv")
+	q := func(s string) string { b, _ := json.Marshal(s); return string(b) }
+	return `{"a":` + q(vals[0]) + `,"b":` + q(vals[1]) + `,"lvl":` + q(vals[2]) + `,"v":` + q(vals[3]) + `,"n":` + rapid.SampledFrom([]string{"1", "7", "42"}).Draw(rt, "rjn") + `}`
+}
+
 func GenLine(rt *rapid.T) string {
-	switch rapid.IntRange(0, 11).Draw(rt, "lk") {
+	switch rapid.IntRange(0, 13).Draw(rt, "lk") {
+	case 12, 13:
+		return richJSON(rt)
 	case 0, 1, 2, 3:
 		return genJSONObject(rt, 0)
 	case 4, 5, 6:
@@ -145,6 +155,7 @@ func GenLine(rt *rapid.T) string {
 
 // DBOpt controls GenDB.
 type DBOpt struct {
+	MinSeries  int
 	MaxSeries  int
 	MaxSamples int
 	// SpreadNs: samples lie in [from-SpreadNs, to+SpreadNs).
@@ -193,7 +204,11 @@ func genLabels(rt *rapid.T) []logdb.Label {
 // GenDB draws a database placed around the window.
 func GenDB(rt *rapid.T, w Window, o DBOpt) logdb.DB {
 	db := logdb.DB{}
-	ns := rapid.IntRange(1, o.MaxSeries).Draw(rt, "nseries")
+	minS := o.MinSeries
+	if minS < 1 {
+		minS = 1
+	}
+	ns := rapid.IntRange(minS, o.MaxSeries).Draw(rt, "nseries")
 	seen := map[string]bool{}
 	from, to := w.FromNs(), w.ToNs()
 	anchors := []int64{from - 1e9, from - 1, from, from + 1, from + 5e8, to - 1e9, to - 1, to, to + 1, to + 999999999,
@@ -499,6 +514,29 @@ var regexpStages = []struct {
 	{`(?P<xn>\d+)%`, []string{"xn"}},
 }
 
+// nestedRegexpStages: group structures qryn's regexp parser accepts
+// (planner_parser_regexp.go: "(?P<" name ">" ... ")", "(" ... ")", everything else literal):
+// named inside named / unnamed, unnamed inside named, siblings, optional groups, alternation
+// with groups, an empty named group, non-capturing and flag groups. Anchored, so that a line
+// matches at most once. Each named group's label must receive its own group's text.
+var nestedRegexpStages = []struct {
+	re    string
+	names []string
+}{
+	{`^(?P<w>lvl=(?P<xl>\w+))`, []string{"w", "xl"}},
+	{`^(lvl=(?P<xl>\w+))( msg=(?P<w>\w+))?`, []string{"xl", "w"}},
+	{`^(?P<w>(lvl)=(\w+))`, []string{"w"}},
+	{`^(?P<xl>lvl)=(?P<xn>[^ ]+) (?P<w>msg)`, []string{"xl", "xn", "w"}},
+	{`^(?:lvl|msg)=(?P<v>\w+)`, []string{"v"}},
+	{`^(lvl=(?P<xn>\d+)|lvl=(?P<w>[a-z]+))`, []string{"xn", "w"}},
+	{`^(?P<b>)lvl=(?P<xl>\w+)`, []string{"b", "xl"}},
+	{`^(?i)LVL=(?P<xl>\w+)`, []string{"xl"}},
+	{`^(?P<w>lvl=(?P<xn>\d+)(?P<v>\.\d+)?)`, []string{"w", "xn", "v"}},
+	{`^(?P<w>(?P<xl>[a-z]+) (?P<xn>[^ ]+))`, []string{"w", "xl", "xn"}},
+	{`^\{"(?P<a>[a-z]+)":("(?P<v>[^"]*)"|(?P<xn>\d+))`, []string{"a", "v", "xn"}},
+	{`^(?P<w>(?:hello|error) (?P<xl>\S+))`, []string{"w", "xl"}},
+}
+
 // StageOpt controls GenStages.
 type StageOpt struct {
 	Max int
@@ -557,6 +595,9 @@ func GenStages(rt *rapid.T, db *logdb.DB, o StageOpt) []refeval.Stage {
 			st = append(st, refeval.Stage{Kind: refeval.KJSON, Params: ps})
 		case k == 9:
 			r := rapid.SampledFrom(regexpStages).Draw(rt, "re")
+			if rapid.Bool().Draw(rt, "nested-re") {
+				r = rapid.SampledFrom(nestedRegexpStages).Draw(rt, "nre")
+			}
 			st = append(st, refeval.Stage{Kind: refeval.KRegexp, Val: r.re})
 			extracted = append(extracted, r.names...)
 		default:
@@ -604,6 +645,110 @@ func GenStages(rt *rapid.T, db *logdb.DB, o StageOpt) []refeval.Stage {
 		st = append(st, refeval.Stage{Kind: refeval.KUnwrap, Label: rapid.SampledFrom(cands).Draw(rt, "unwrap")})
 	}
 	return st
+}
+
+// GenShapedStages draws a pipeline of 4-6 stages in which a label filter on L is separated by
+// an unrelated stage from a later stage that rewrites or removes L:
+//
+//	[opener: json-with-params | regexp | drop]  ->  filter on L  ->  separator (line filter
+//	or a label filter on another label, 1-2 of them)  ->  rewriter of L (drop L | json L=<other
+//	path> | regexp extracting L)  ->  [optionally a second filter on L]
+//
+// with the line-filter separator sometimes moved in front of the filter. L is an extracted
+// label (value differs per path) or a stored one; the filter is one whose outcome differs
+// before and after the rewrite (=~ ".+", = "", = / != a value of the data). A filter must judge
+// the labels as they are at its own position.
+func GenShapedStages(rt *rapid.T, db *logdb.DB) ([]refeval.Stage, string) {
+	d := collect(db)
+	var st []refeval.Stage
+	stored := rapid.IntRange(0, 3).Draw(rt, "sh-stored") == 0
+	var L string
+	path1 := rapid.SampledFrom([]string{"a", "b", "lvl", "v"}).Draw(rt, "sh-p1")
+	kind := "extracted"
+	if stored {
+		kind = "stored"
+		L = rapid.SampledFrom(d.names).Draw(rt, "sh-L")
+		// opener that makes the planner join the labels without touching L
+		switch rapid.IntRange(0, 2).Draw(rt, "sh-open") {
+		case 0:
+			st = append(st, refeval.Stage{Kind: refeval.KDrop, Params: []refeval.Param{{Name: "zz"}}})
+		case 1:
+			st = append(st, refeval.Stage{Kind: refeval.KJSON, Params: []refeval.Param{{Name: "w", Val: path1}}})
+		default:
+			st = append(st, refeval.Stage{Kind: refeval.KRegexp, Val: `lvl=(?P<xl>[0-9]+)`})
+		}
+	} else {
+		L = rapid.SampledFrom([]string{"a", "v", "w"}).Draw(rt, "sh-L")
+		if rapid.IntRange(0, 3).Draw(rt, "sh-open") == 0 {
+			L = "xl"
+			st = append(st, refeval.Stage{Kind: refeval.KRegexp, Val: `lvl=(?P<xl>\w+)`})
+		} else {
+			st = append(st, refeval.Stage{Kind: refeval.KJSON, Params: []refeval.Param{{Name: L, Val: path1}}})
+		}
+	}
+	filterOn := func(label string) refeval.Stage {
+		pool := d.values[label]
+		if len(pool) == 0 {
+			pool = []string{"x", "y", "prod", "dev", "info", "api", "1", "42", "5"}
+		}
+		var f refeval.LabelFilter
+		f.Label = label
+		var v string
+		switch rapid.IntRange(0, 4).Draw(rt, "sh-f") {
+		case 0, 1:
+			f.Cmp, v = "=~", ".+"
+		case 2:
+			f.Cmp, v = "=", ""
+		case 3:
+			f.Cmp, v = "=", rapid.SampledFrom(pool).Draw(rt, "sh-fv")
+		default:
+			f.Cmp, v = "!=", rapid.SampledFrom(pool).Draw(rt, "sh-fv")
+		}
+		f.Str = &v
+		return refeval.Stage{Kind: refeval.KLabelFilter, Filter: &f}
+	}
+	lineSep := func() refeval.Stage {
+		return refeval.Stage{Kind: refeval.KLineFilter, Op: rapid.SampledFrom([]string{"|=", "!=", "|~"}).Draw(rt, "sh-lop"),
+			Val: rapid.SampledFrom([]string{"", "l", "a", "\"", "zzzz", "="}).Draw(rt, "sh-lv")}
+	}
+	sepKind := rapid.SampledFrom([]string{"line", "line", "label", "both", "line-before"}).Draw(rt, "sh-sep")
+	if sepKind == "line-before" {
+		st = append(st, lineSep())
+	}
+	st = append(st, filterOn(L))
+	switch sepKind {
+	case "line":
+		st = append(st, lineSep())
+	case "label", "line-before":
+		other := "app"
+		if L == "app" {
+			other = "env"
+		}
+		v := ".*"
+		st = append(st, refeval.Stage{Kind: refeval.KLabelFilter, Filter: &refeval.LabelFilter{Label: other, Cmp: rapid.SampledFrom([]string{"=~", "!="}).Draw(rt, "sh-oop"), Str: &v}})
+		if *st[len(st)-1].Filter.Str == ".*" && st[len(st)-1].Filter.Cmp == "!=" {
+			z := "zzz"
+			st[len(st)-1].Filter.Str = &z
+		}
+	default:
+		st = append(st, lineSep())
+		z := "zzz"
+		st = append(st, refeval.Stage{Kind: refeval.KLabelFilter, Filter: &refeval.LabelFilter{Label: "nolbl", Cmp: "!=", Str: &z}})
+	}
+	rw := rapid.SampledFrom([]string{"drop", "drop", "json", "json", "regexp"}).Draw(rt, "sh-rw")
+	switch rw {
+	case "drop":
+		st = append(st, refeval.Stage{Kind: refeval.KDrop, Params: []refeval.Param{{Name: L}}})
+	case "json":
+		p2 := rapid.SampledFrom([]string{"a", "b", "lvl", "v", "n"}).Draw(rt, "sh-p2")
+		st = append(st, refeval.Stage{Kind: refeval.KJSON, Params: []refeval.Param{{Name: L, Val: p2}}})
+	default:
+		st = append(st, refeval.Stage{Kind: refeval.KRegexp, Val: "\"(?P<" + L + ">[a-z]+)\":"})
+	}
+	if rapid.Bool().Draw(rt, "sh-tail") {
+		st = append(st, filterOn(L))
+	}
+	return st, kind + "/" + sepKind + "/" + rw
 }
 
 // ---- regions -----------------------------------------------------------------------------------
